@@ -364,9 +364,22 @@ pub struct ScriptShim {
     pub auth_reject: Option<u64>,
     /// attempt `T::from(value)` conversions on every parameter
     pub conv: bool,
+    /// error texts of up to 200 bytes are formatted into this one buffer before they are handed to
+    /// the library (a backend habit: the same address, and often the same length, error after error)
+    pub errbuf: Vec<u8>,
 }
 
 impl ScriptShim {
+    /// the message as the library gets to see it: in the reused buffer if it fits
+    fn errtext<'a>(buf: &'a mut Vec<u8>, msg: &'a [u8]) -> &'a [u8] {
+        if msg.len() <= 200 {
+            buf.clear();
+            buf.extend_from_slice(msg);
+            &buf[..]
+        } else {
+            msg
+        }
+    }
     pub fn new(clock: Clock, scripts: Vec<Script>) -> (ScriptShim, Rc<RefCell<ShimLog>>) {
         let log = Rc::new(RefCell::new(ShimLog::default()));
         (
@@ -377,6 +390,7 @@ impl ScriptShim {
                 tls: None,
                 auth_reject: None,
                 conv: false,
+                errbuf: Vec::with_capacity(256),
             },
             log,
         )
@@ -508,7 +522,11 @@ impl ScriptShim {
                         Some(r) => r,
                         None => return Err(inapplicable(name)),
                     };
-                    chk!(name, r.finish_error(ErrorKind::from(*code), msg));
+                    let mut eb = std::mem::take(&mut self.errbuf);
+                    let text: &[u8] = ScriptShim::errtext(&mut eb, &msg[..]);
+                    let res = r.finish_error(ErrorKind::from(*code), &text);
+                    self.errbuf = eb;
+                    chk!(name, res);
                 }
                 QOp::CompleteOne(n, id) => {
                     let q = match qw.take() {
@@ -538,7 +556,10 @@ impl ScriptShim {
                         Some(q) => q,
                         None => return Err(inapplicable(name)),
                     };
-                    chk!(name, q.error(ErrorKind::from(*code), &msg[..]));
+                    let mut eb = std::mem::take(&mut self.errbuf);
+                    let r = q.error(ErrorKind::from(*code), ScriptShim::errtext(&mut eb, &msg[..]));
+                    self.errbuf = eb;
+                    chk!(name, r);
                 }
                 QOp::NoMore => {
                     let q = match qw.take() {
@@ -703,7 +724,9 @@ impl<W: Read + Write> MysqlShim<W> for ScriptShim {
                 r.map_err(ShimErr::Io)
             }
             Some(Script::PrepErr(code, msg)) => {
-                let r = info.error(ErrorKind::from(code), &msg[..]);
+                let mut eb = std::mem::take(&mut self.errbuf);
+                let r = info.error(ErrorKind::from(code), ScriptShim::errtext(&mut eb, &msg[..]));
+                self.errbuf = eb;
                 self.res(i, "prepare_error", &r);
                 r.map_err(ShimErr::Io)
             }
@@ -781,7 +804,9 @@ impl<W: Read + Write> MysqlShim<W> for ScriptShim {
         let i = self.begin(CbKind::Init(schema.as_bytes().to_vec()));
         let r = (|| match self.take_script(i) {
             Some(Script::InitErr(code, msg)) => {
-                let r = w.error(ErrorKind::from(code), &msg[..]);
+                let mut eb = std::mem::take(&mut self.errbuf);
+                let r = w.error(ErrorKind::from(code), ScriptShim::errtext(&mut eb, &msg[..]));
+                self.errbuf = eb;
                 self.res(i, "init_error", &r);
                 r.map_err(ShimErr::Io)
             }
